@@ -46,6 +46,63 @@ def run(ctx: Ctx):
     check_owner(ctx)
     check_ancilla_api(ctx)
     check_mark_operands(ctx)
+    ctx.section(check_inplace, ctx)
+
+
+def check_inplace(ctx: Ctx):
+    """TS-INPLACE: who may be the TARGET of an emitted gate.  The final replay undoes the recorded gates in reverse;
+    that is the inverse computation only if every qubit that served as a control still holds, during the replay,
+    the value it had when it was used.  So a gate may only write (a) the destination / a qubit allocated by this
+    very call, (b) a qubit that the guard shows to be an anonymous ancilla (`q in qc.ancilla_lst`: nothing else
+    refers to it), (c) the symbol's own qubit in the self-assignment `a = ~a`, (d) the temporary x ... x sandwich
+    of compile_or (checked by its own rule).  Anything else rewrites a qubit other definitions were computed from."""
+    ic = ctx.repo.cls(IC)
+    TARGET_POS = {"x": 0, "cx": 1, "ccx": 2, "mcx": 1}
+    n = 0
+    for name, fi in ic.methods.items():
+        if not name.startswith("compile"):
+            continue
+        aliases = c02_dest_aliases(fi)
+        fresh = set()
+        for a in walk_no_nested(fi.node):
+            if isinstance(a, ast.Assign) and isinstance(a.targets[0], ast.Name):
+                for v in ([a.value.body, a.value.orelse] if isinstance(a.value, ast.IfExp) else [a.value]):
+                    if isinstance(v, ast.Call) and dotted(v.func) in ("qc.get_free_ancilla", "qc.add_qubit", "qc.add_ancilla"):
+                        fresh.add(a.targets[0].id)
+                    if isinstance(v, ast.Call) and dotted(v.func) == "self.compile_expr" and any(k.arg == "dest" and norm(k.value) in aliases | fresh for k in v.keywords):
+                        fresh.add(a.targets[0].id)
+        for c in q.calls(fi.node, nested=False):
+            d = dotted(c.func) or ""
+            if not d.startswith("qc.") or d[3:] not in TARGET_POS or len(c.args) <= TARGET_POS[d[3:]]:
+                continue
+            n += 1
+            tgt = c.args[TARGET_POS[d[3:]]]
+            t = norm(tgt)
+            facts = [(norm(e).replace(" ", ""), pol) for e, pol in guard_facts(fi, c)]
+            pos = [f for f, pol in facts if pol]
+            why = None
+            if isinstance(tgt, ast.Name) and (t in aliases or t in fresh):
+                why = "destination / qubit allocated by this call"
+            elif any(f == f"{t}inqc.ancilla_lst" for f in pos):
+                why = "guarded: anonymous ancilla"
+            elif any("expr.args[0].name==sym.name" in f for f in pos) and any(isinstance(a, ast.Assign) and norm(a.targets[0]) == t and norm(a.value) == "qc[sym.name]" for a in walk_no_nested(fi.node)):
+                why = "self-assignment a = ~a writes a's own qubit"
+            elif name == "compile_or" and d == "qc.x":
+                why = "operand negation sandwich (balanced: DP-WIRES / or-idiom rules)"
+            elif name == "compile_expr" and t.startswith("qc['TRUE']") and any(f == "'TRUE'notinqc" for f in pos):
+                why = "constant-one qubit initialised when it is created"
+            if why is None:
+                ctx.fail("TS-INPLACE", fi, f"{norm(c)} writes only a qubit this call owns", f"`{norm(c)}` (guards {pos or 'none'}) writes a qubit that is neither the destination, nor allocated by this call, nor shown by its guard to be an anonymous ancilla: every definition computed from that qubit is later uncomputed against the changed value", c)
+            else:
+                ctx.ok("TS-INPLACE", fi, f"{norm(c)} writes only a qubit this call owns", why, c)
+    if n < 10:
+        raise AnchorError(IC, f"only {n} gate emissions found in the compile methods (13 when the tables were frozen)")
+
+
+def c02_dest_aliases(fi):
+    from .c02 import dest_aliases
+
+    return dest_aliases(fi)
 
 
 def _gate_loop(fi: FuncInfo) -> ast.For:
